@@ -250,6 +250,9 @@ pub fn exec_probe(c: &ProbeCase) -> Outcome {
     if completes >= 2 {
         o.labels.push("several-messages".into());
     }
+    if c.calls.iter().any(|k| matches!(k, Call::Header { size, .. } if *size > (1 << 20) && *size < (1 << 30))) {
+        o.labels.push("body-above-1MiB-announced".into());
+    }
     if let Some(s) = violation_state {
         o.labels.push(format!("violation-in-{}", s));
     }
@@ -288,13 +291,32 @@ pub fn valid_message() -> BoxedStrategy<Vec<Call>> {
     (
         start_call(),
         gen::props(),
-        prop_oneof![2 => Just(0u32), 2 => 1u32..40, 2 => 40u32..3000, 1 => 3000u32..20000],
+        // mostly small; one message in thirty-six has a body around or above 1 MiB (the collector
+        // preallocates at most 1 MiB whatever the header announces)
+        prop_oneof![
+            10 => Just(0u32),
+            10 => 1u32..40,
+            10 => 40u32..3000,
+            5 => 3000u32..20000,
+            1 => prop::sample::select(vec![(1u32 << 20) - 1, 1 << 20, (1 << 20) + 1, (1 << 20) + 4097, 2 << 20, (3 << 20) + 17]),
+        ],
         vec(any::<u16>(), 0..6),
         any::<u8>(),
     )
         .prop_map(|(start, props, total, hints, salt)| {
             let mut v = vec![start, Call::Header { size: total as u64, props }];
-            for (i, n) in gen::chunk_sizes(total as usize, &hints, 4096).into_iter().enumerate() {
+            let sizes: Vec<usize> = if total > 100_000 {
+                // large bodies: chunks of 1000-131000 bytes (keeps the call list short)
+                let mut v: Vec<usize> = gen::chunk_sizes(total as usize / 1000, &hints, 131).into_iter().map(|n| n * 1000).collect();
+                let rest = total as usize - v.iter().sum::<usize>();
+                if rest > 0 {
+                    v.push(rest);
+                }
+                v
+            } else {
+                gen::chunk_sizes(total as usize, &hints, 4096)
+            };
+            for (i, n) in sizes.into_iter().enumerate() {
                 v.push(Call::Body {
                     len: n as u32,
                     salt: salt.wrapping_add(i as u8),
